@@ -507,9 +507,53 @@ def gen_inner_case(rng):
     return finish(st, pt, [], rate_forms(rng, rs, 1), 'inner:' + shape, extra={'dec_inner': True})
 
 
+# (total time, piece duration, count): float(total) / float(piece) is just BELOW / ABOVE the integer count
+NEAR_BELOW = [('3/10', '1/10', 3), ('3/5', '1/10', 6), ('7/10', '1/10', 7), ('6/5', '1/10', 12), ('3/5', '1/5', 3), ('7/5', '1/5', 7),
+              ('6/5', '2/5', 3), ('33/10', '11/10', 3), ('3/20', '1/20', 3), ('7/20', '1/20', 7), ('21/100', '7/100', 3),
+              ('7/20', '7/100', 5), ('7/10', '7/100', 10)]
+NEAR_ABOVE = [('21/10', '3/10', 7), ('27/10', '3/10', 9), ('21/10', '7/10', 3), ('21/5', '7/10', 6), ('7/100', '1/100', 7)]
+
+
+def gen_nearint_case(rng, pick=None):
+    """a repetition count / loop range that is COMPUTED from decimal floats: 'fill the total time T with pieces of duration
+    d' = RepetitionPT(ramp of duration d, 'T/d'); 0.3 / 0.1 = 2.9999999999999996 must be three repetitions (checked_int_cast),
+    21/10 / (3/10) = 7.000000000000001 seven"""
+    T, d, n = pick or rng.choice(NEAR_BELOW + NEAR_BELOW + NEAR_ABOVE)
+    den = F(d).denominator
+    st = D(rng, den if den in DECIMAL_DENS else 10)
+    st.ks = [1]
+    st.params['T'] = T
+    st.ptypes['T'] = rng.choice(['float', 'dec_str'])
+    st.params['d'] = d
+    st.ptypes['d'] = rng.choice(['float', 'dec_str'])
+    cnt = ['dv', V('T'), 'd', d]
+    v0, v1 = two_volts(rng)
+    shape = rng.choice(['rep', 'rep', 'for', 'for-stop', 'seq-rep'])
+    body = {'k': 'table', 'chs': [['A', [[C(0), C(v0), 'hold'], [V('d'), C(v1), rng.choice(['linear', 'linear', 'jump'])]]]]}
+    if rng.random() < 0.3:
+        body = {'k': 'func', 'd': V('d'), 'ch': 'A', 'a': C(v0), 'b': C(int(1 / F(d)) + 1)}
+    if shape == 'rep':
+        pt = {'k': 'rep', 'n': cnt, 'body': body}
+    elif shape == 'seq-rep':
+        pt = {'k': 'seq', 'subs': [body, {'k': 'rep', 'n': cnt, 'body': body}]}
+    else:
+        if body['k'] == 'table':
+            body['chs'][0][1][0][1] = ['+', C(v0), ['*', V('i'), C(F(1, 2))]]
+        else:
+            body['a'] = ['+', C(v0), V('i')]
+        rg = [C(0), cnt, C(1)] if shape == 'for' else [['-', cnt, C(2)], ['+', cnt, C(1)], C(1)]
+        pt = {'k': 'for', 'idx': 'i', 'range': rg, 'body': body}
+    rs = [r for dd, _, r in DEC_FAMILIES if dd == st.den][0]
+    return finish(st, pt, [], rate_forms(rng, rs, 1), 'nearint:' + shape, extra={'nearint': '%s/%s' % (T, d)})
+
+
 def gen_dec_cases(rng, tier):
     q = tier == 'quick'
     out = enum_dec_cases(rng, full=not q)
+    for pick in (rng.sample(NEAR_BELOW + NEAR_ABOVE, 12) if q else (NEAR_BELOW + NEAR_ABOVE) * 6):
+        c = gen_nearint_case(rng, pick)
+        if c is not None:
+            out.append(c)
     for _ in range(14 if q else 300):
         c = gen_inner_case(rng)
         if c is not None:
